@@ -6,6 +6,7 @@ From Irismod Require Import Queues.Common.
 From Irismod Require Queues.Htlc Queues.ProofsHtlc.
 From Irismod Require Queues.Random Queues.ProofsRandom.
 From Irismod Require Queues.Farm Queues.ProofsFarm.
+From Irismod Require Queues.Service Queues.ProofsService.
 
 (** ** HTLC (modules/htlc/abci.go: BeginBlocker; keeper/htlc.go) *)
 Module H.
@@ -209,3 +210,77 @@ Proof.
   repeat (apply Forall_cons; [exact I || reflexivity || (simpl; lia)|]). apply Forall_nil.
 Qed.
 End F.
+
+(** ** service (modules/service/abci.go: EndBlocker; keeper/invocation.go, state_change.go) *)
+Module S.
+Import Queues.Service Queues.ProofsService.
+
+(** Queue hygiene on every reachable state — no hypothesis on the history: any interleaving of
+    calls, pauses, starts, kills, updates (timeout / frequency / total changed while a batch is
+    queued or running), responses and block ends, whatever providers pass the filter and
+    whether or not the consumer can pay.  [QInv]: both queues are duplicate-free, agree with
+    their per-context height markers, and hold no entry behind the current height; every
+    entry refers to an existing context; no context is in both queues; a running context is in
+    one of them; timeouts are positive and a repeated context's frequency is not below its
+    timeout (what keeps the next batch from being scheduled in the past). *)
+Theorem service_queue_hygiene :
+  forall (h0 : Z) (ops : list op), QInv (run (init h0) ops).
+Proof. exact QInv_reachable. Qed.
+Print Assumptions service_queue_hygiene.
+
+Theorem service_one_entry_per_running_context :
+  forall s, QInv s -> forall id c, get id (ctxs s) = Some c -> c_state c = CRunning ->
+    (exists h, In (h, id) (nq s) /\ (forall h', In (h', id) (nq s) -> h' = h) /\ forall h', ~ In (h', id) (xq s))
+    \/ (exists h, In (h, id) (xq s) /\ (forall h', In (h', id) (xq s) -> h' = h) /\ forall h', ~ In (h', id) (nq s)).
+Proof. exact one_entry_per_running_context. Qed.
+Print Assumptions service_one_entry_per_running_context.
+
+(** The end-blocker has no aborting path (contexts created by MsgCallService: no module callback). *)
+Theorem blocks_total_service :
+  forall s res, snd (step s (EndBlock res)) <> Abort.
+Proof. exact ProofsService.blocks_total_service. Qed.
+Print Assumptions blocks_total_service.
+
+(** Exactly once, at the due height: the logs of handled new-batch entries and of handled
+    expirations are duplicate-free; every logged entry was handled by the end-blocker of its
+    own height, already past; whatever is still queued is not behind the current height. *)
+Theorem processed_exactly_once_service :
+  forall (h0 : Z) (ops : list op),
+  let s := run (init h0) ops in
+  NoDup (map fst (ndone s)) /\ NoDup (map fst (xdone s))
+  /\ (forall k p, In (k, p) (ndone s) \/ In (k, p) (xdone s) -> p = fst k /\ p < height s)
+  /\ (forall k, In k (nq s) \/ In k (xq s) -> height s <= fst k).
+Proof. exact ProofsService.processed_exactly_once_service. Qed.
+Print Assumptions processed_exactly_once_service.
+
+(** ... and nothing is lost in between: an entry queued at some point of a history is, at every
+    later point, still queued or logged with the block of its own height. *)
+Theorem service_entries_never_lost :
+  forall (h0 : Z) (ops1 ops2 : list op),
+  let s1 := run (init h0) ops1 in let s2 := run s1 ops2 in
+  (forall k, In k (nq s1) -> In k (nq s2) \/ In (k, fst k) (ndone s2))
+  /\ (forall k, In k (xq s1) -> In k (xq s2) \/ In (k, fst k) (xdone s2)).
+Proof. exact entries_never_lost. Qed.
+Print Assumptions service_entries_never_lost.
+
+(** Before fix cb4912d the new-batch handler returned without dequeuing when the provider
+    filter failed: the invariant was lost after one block (and with no failing filter the old
+    handler is the present one). *)
+Theorem service_unfixed_handler_refuted :
+  exists s, QInv s /\ ~ QInv (end_block_old [1] s []) /\ end_block_old [] s [] = end_block s [].
+Proof. exact old_handler_leaves_stale_entry. Qed.
+Print Assumptions service_unfixed_handler_refuted.
+
+(** non-vacuity: a repeated context (timeout 2, every 3 blocks, 2 batches) paused and restarted
+    while its batch runs, a one-shot context answered in time, one whose consumer cannot pay *)
+Example service_nonvacuous :
+  let ops := [Call 1 0 2 true 3 2 Ok; Call 2 0 3 false 0 0 Ok; Call 3 1 2 false 0 0 Ok;
+              EndBlock [(1, NBStart 2); (2, NBStart 1); (3, NBNoFunds)];
+              Respond 2 Ok; Pause 1 0 Ok; EndBlock []; Start 1 0 Ok; EndBlock []; EndBlock [];
+              EndBlock [(1, NBStart 0)]; EndBlock []; EndBlock []] in
+  let s := run (init 1) ops in
+  map fst (ndone s) = [(1, 1); (1, 2); (1, 3); (4, 1)]
+  /\ map fst (xdone s) = [(3, 1); (4, 2); (6, 1)]
+  /\ map fst (ctxs s) = [3] /\ nq s = [] /\ xq s = [] /\ height s = 8.
+Proof. vm_compute. repeat split. Qed.
+End S.
